@@ -15,6 +15,7 @@
 package controllers
 
 import (
+	"bufio"
 	"bytes"
 	"encoding/xml"
 	"errors"
@@ -22,6 +23,7 @@ import (
 	"io"
 	"net/http"
 	"net/url"
+	"os"
 	"strconv"
 	"strings"
 	"time"
@@ -3685,7 +3687,16 @@ func (c S3ApiController) CreateActions(ctx *fiber.Ctx) error {
 				ScanRange:           payload.ScanRange,
 			})
 
-		ctx.Context().SetBodyStreamWriter(sw)
+		// the stream writer runs in a goroutine of its own, outside the
+		// handler chain: a panic there would end the whole process
+		ctx.Context().SetBodyStreamWriter(func(w *bufio.Writer) {
+			defer func() {
+				if r := recover(); r != nil {
+					fmt.Fprintf(os.Stderr, "panic while streaming SelectObjectContent response: %v\n", r)
+				}
+			}()
+			sw(w)
+		})
 
 		return nil
 	}
